@@ -373,15 +373,41 @@ type c01Ref struct {
 	pc   uint64 // counter Ψ returns (next instruction after a host call)
 	m    *refpvm.Machine
 	done bool
+	// unknown host calls (identifier outside the 256-slot table) the run went through
+	whats    int
+	unpinned bool
 }
 
 func c01RunRef(prog *refpvm.Program, w *c01World, gas uint64, opt refpvm.Options, maxSteps int) c01Ref {
 	w.ref.Begin()
 	m := &refpvm.Machine{P: prog, Gas: gas, Regs: w.regs, Mem: w.ref, Opt: opt}
-	e, done := m.Run(maxSteps)
-	r := c01Ref{ok: true, prog: prog, exit: e, m: m, done: done}
+	r := c01Ref{ok: true, prog: prog, m: m}
+	for {
+		e, done := m.Run(maxSteps - m.Steps)
+		r.exit, r.done = e, done
+		if !done {
+			break
+		}
+		// The logging host-call table has 256 slots. An identifier outside it is an
+		// unknown host call: Ψ_H charges 10, sets φ7 = WHAT and resumes after the
+		// ecalli (GP B: default case of the host-call dispatch).
+		if e.Kind == refpvm.Host && (int64(e.Arg) < 0 || e.Arg >= 256) {
+			if m.Gas < 10 {
+				// out of gas inside the host call: which gas/counter the exit carries is
+				// not pinned by the property; the case is not judged
+				r.unpinned = true
+				break
+			}
+			m.Gas -= 10
+			m.Regs[7] = ^uint64(1) // WHAT
+			m.PC = m.NextPC
+			r.whats++
+			continue
+		}
+		break
+	}
 	r.pc = m.PC
-	if e.Kind == refpvm.Host {
+	if r.exit.Kind == refpvm.Host {
 		r.pc = m.NextPC
 	}
 	return r
@@ -634,9 +660,7 @@ func c01KeyOf(ref *c01Ref, im *c01Impl) string {
 	}
 	need, l := c01Declared(p, pc)
 	b1 := p.Zeta(pc + 1)
-	if pc+1+uint64(need) > n {
-		return ck + "operands-past-end"
-	}
+	continued := executed && ref.exit.Kind == refpvm.OOG // the culprit itself completed
 	if executed {
 		if op == 10 && ref.exit.Kind == refpvm.Host {
 			id := int64(ref.exit.Arg)
@@ -653,6 +677,15 @@ func c01KeyOf(ref *c01Ref, im *c01Impl) string {
 		if op == 101 {
 			return ck + "sbrk"
 		}
+		if continued && m.PC == pc {
+			return ck + "target=self" // static or dynamic jump to its own address
+		}
+		if (op == 50 || op == 180) && m.DjumpTable && p.Z > 8 {
+			return ck + "z>8"
+		}
+	}
+	if pc+1+uint64(need) > n {
+		return ck + "operands-past-end"
 	}
 	if cat == refpvm.CatImmImm && b1 >= 8 || cat == refpvm.CatRegImmImm && b1>>4 >= 8 {
 		return ck + "lx-nibble>=8"
@@ -664,7 +697,6 @@ func c01KeyOf(ref *c01Ref, im *c01Impl) string {
 		if m.AccessLen > 0 && uint64(m.AccessAddr)+uint64(m.AccessLen) > 1<<32 {
 			return ck + "access-wraps-2^32"
 		}
-		continued := ref.exit.Kind == refpvm.OOG // the culprit itself completed
 		if t, ok := c01StaticTarget(p, pc); ok {
 			taken := ref.exit.Kind == refpvm.Panic || continued && m.PC == uint64(t) && t >= 0
 			if taken {
@@ -673,22 +705,12 @@ func c01KeyOf(ref *c01Ref, im *c01Impl) string {
 					return ck + "target<0"
 				case uint64(t) >= n:
 					return ck + "target>=len"
-				case uint64(t) == pc:
-					return ck + "target=self"
 				case !p.IsBlockStart(uint64(t)):
 					if !refpvm.IsValid(p.Zeta(uint64(t))) {
 						return ck + "target=nonstart-invalid-opcode"
 					}
 					return ck + "target=nonstart"
 				}
-			}
-		}
-		if op == 50 || op == 180 {
-			if continued && m.PC == pc {
-				return ck + "target=self"
-			}
-			if m.DjumpTable && p.Z > 8 {
-				return ck + "z>8"
 			}
 		}
 	}
@@ -819,6 +841,10 @@ func c01Judge(prog *refpvm.Program, blob []byte, ip *Program, w *c01World, gas u
 		v.capped = true
 		return v
 	}
+	if v.ref.unpinned {
+		v.ok, v.relax = true, "hostcall-oog-unpinned"
+		return v
+	}
 	v.im, v.ip = c01RunImpl(blob, ip, w, gas)
 	if v.im.deblobPanic || !v.im.deblobOK {
 		v.kind = "deblob"
@@ -848,7 +874,7 @@ func c01Judge(prog *refpvm.Program, blob []byte, ip *Program, w *c01World, gas u
 	// this re-runs the reference, whose memory is shared with v.ref)
 	if v.ref.m.SawK0 {
 		ref2 := c01RunRef(prog, w, gas, refpvm.Options{K0Trap: true}, c01StepCap(gas))
-		if ref2.done {
+		if ref2.done && !ref2.unpinned {
 			if k2, _ := c01Match(&ref2, &v.im, false, false); k2 == "" {
 				v.ok, v.relax = true, "k0trap"
 				return v
@@ -906,17 +932,37 @@ func c01Check(r *vlib.Run, pid string, blob []byte, w *c01World, gas uint64, not
 	// (assumes disagreement is monotone in g, which only affects the key)
 	full := v
 	cul := v // culprit run; the full run stands for "gas = number of steps"
-	if n := min(gas, uint64(v.ref.m.Steps)); n >= 1 {
+	bad := func(x *c01Verdict) bool { return !x.ok && !x.capped }
+	if n := min(gas, uint64(v.ref.m.Steps+10*v.ref.whats)); n >= 1 {
+		unpinnedSeen := false
 		// most often the last executed instruction is the culprit: try n-1 first
-		if v1 := c01Judge(prog, blob, v.ip, w, n-1, false); !v1.ok && !v1.capped {
-			cul = v1
-			lo, hi := uint64(0), n-1 // invariant: cul is the (bad) run with gas hi
+		if v1 := c01Judge(prog, blob, v.ip, w, n-1, false); bad(&v1) || v1.ref.unpinned {
+			lo, hi := uint64(0), n-1 // invariant: the run with gas hi is bad (or unpinned)
+			if bad(&v1) {
+				cul = v1
+			} else {
+				unpinnedSeen = true
+			}
 			for lo < hi {
 				mid := (lo + hi) / 2
-				if vm := c01Judge(prog, blob, v.ip, w, mid, false); !vm.ok && !vm.capped {
+				vm := c01Judge(prog, blob, v.ip, w, mid, false)
+				switch {
+				case bad(&vm):
 					hi, cul = mid, vm
-				} else {
+				case vm.ref.unpinned: // not judged: keep looking lower
+					hi, unpinnedSeen = mid, true
+				default:
 					lo = mid + 1
+				}
+			}
+			if unpinnedSeen {
+				// runs that end inside an unknown host call without gas are not judged,
+				// which breaks the search invariant: scan upwards for the first bad run
+				for g := uint64(0); g < n; g++ {
+					if vg := c01Judge(prog, blob, v.ip, w, g, false); bad(&vg) {
+						cul = vg
+						break
+					}
 				}
 			}
 		}
